@@ -828,12 +828,15 @@ def convert_list(string: str) -> List[str]:
 class UserConfig(configparser.ConfigParser):
     def __init__(self, *args, **kwargs):
         kwargs["converters"] = {"list": convert_list}
+        # Config values (e.g. URLs) may contain '%'; store and read them verbatim
+        kwargs.setdefault("interpolation", None)
         super().__init__(*args, **kwargs)
 
 
 class LibraryConfig(configparser.ConfigParser):
     def __init__(self, *args, **kwargs):
         kwargs["converters"] = {"list": convert_list}
+        kwargs.setdefault("interpolation", None)
         super().__init__(*args, **kwargs)
 
 
